@@ -188,7 +188,17 @@ func VerifC09UnlikeKinds() {
 // VerifC09SameKind: nil equals nil; booleans, strings and arrays compare by value;
 // equality is reflexive and symmetric.
 func VerifC09SameKind() {
-	switch nd.Choice(5) {
+	switch nd.Choice(6) {
+	case 5:
+		// typed slices and nested arrays are arrays like any other: equal when element-wise equal
+		// (elements compared by ==, so by numeric value), whatever their Go types, nil or empty
+		nd.Assert(Equal([]string(nil), []string{}) && Equal([]int{}, []int(nil)) && Equal([]any(nil), []string{}), "empty-typed-slices-equal")
+		x, y := nd.IntIn(-2, 2), nd.IntIn(-2, 2)
+		nd.Assert(Equal([][]any{{x, 2.0}}, [][]any{{float64(x), int64(2)}}), "nested-elements-by-numeric-value")
+		nd.Assert(Equal([][]any{{x}}, [][]any{{y}}) == (x == y), "nested-same-type-equal")
+		nd.Assert(Equal([][]int{{x}, nil}, [][]int{{y}, {}}) == (x == y), "nested-typed-nil-vs-empty")
+		nd.Assert(Equal([2][]int{{x}, {1}}, [][]int64{{int64(y)}, {1}}) == (x == y), "nested-typed-widths")
+		nd.Assert(Equal([]string{"a", "b"}, []string{"a", "b"}) && !Equal([]string{"a", "b"}, []string{"a", "c"}), "typed-strings")
 	case 0:
 		nd.Assert(Equal(nil, nil), "nil-equals-nil")
 		nd.Assert(!Less(nil, nil), "nil-not-less")
